@@ -57,7 +57,8 @@ def check(seed, n):
         if shell is None:
             continue
         state = states[k % len(states)]
-        prepare(shell, rng, state)
+        prep_seed = rng.randrange(1 << 30)
+        prepare(shell, random.Random(prep_seed), state)
         labels = [s for s in shell.debugger.symbol_table]
         done = []
         for _ in range(rng.choice([1, 3, 6])):
@@ -68,7 +69,8 @@ def check(seed, n):
             hist[state] = hist.get(state, 0) + 1
             if exc:
                 violations.append({"property": "C14", "stream": "shellfuzz", "sig": "shell:" + line.split(" ")[0][:12] + ":" + exc.split(":")[0],
-                                   "case": {"text": text, "state": state, "cmds": list(done), "seed": seed * 733 + k},
+                                   "case": {"text": text, "state": state, "cmds": list(done), "seed": seed * 733 + k, "prep_seed": prep_seed,
+                                            "big_stack": k % 4 == 0},
                                    "what": "debugger command {!r} in state {} raised {}".format(line, state, exc)})
                 break
             if cont is False:
